@@ -1112,6 +1112,23 @@ def task_clone_shape(ctx) -> CloneShape:
     return CloneShape(kind, node, cvar, not impure, impure)
 
 
+def _derived_from_other_param(init: Func, feed: str, store_stmt, init_params):
+    """the value of constructor parameter `feed` that reaches `self.<field> = feed` may come from an assignment whose right side
+    reads ANOTHER constructor parameter (`if estimate is None and spent is not None: estimate = spent`)
+    -> (that assignment, {other parameters}) or None"""
+    flow = flow_of(init)
+    cfg = cfg_of(init)
+    n = cfg.node_of(store_stmt)
+    if n is None:
+        return None
+    for d in flow.reaching(feed, n):
+        if d.kind == 'assign' and d.value is not None:
+            others = {x.id for x in ast.walk(d.value) if isinstance(x, ast.Name) and x.id in init_params and x.id != feed}
+            if others:
+                return d.stmt, others
+    return None
+
+
 def _is_mutable_init(v: ast.AST) -> bool:
     return isinstance(v, (ast.List, ast.Dict, ast.Set, ast.ListComp, ast.DictComp, ast.SetComp)) or \
         (isinstance(v, ast.Call) and isinstance(v.func, ast.Name) and v.func.id in ('list', 'dict', 'set'))
@@ -1236,6 +1253,9 @@ def _fields(ctx, o):
             return len(body) == 1 and isinstance(body[0], ast.Return) and match(f"{g.self_name}.{field}", body[0].value) is not None
         return False
 
+    def arg_passed(p_):
+        return bind.get(p_) is not None
+
     # ---- private data fields of __init__
     stores = _self_stores(init)
     private = []
@@ -1245,17 +1265,27 @@ def _fields(ctx, o):
     for fld in private:
         if fld in RELATION_STATE or fld in OWNER_STATE:
             continue
-        feed = None
+        feed = feed_st = None
         for st, attr, val in stores:
             if attr == fld and isinstance(val, ast.Name) and val.id in init_params:
-                feed = val.id
+                feed, feed_st = val.id, st
         if feed is None:
             for pname, setter in task.setters.items():
                 vp = setter.params[1] if len(setter.params) > 1 else None
                 if any(isinstance(v, ast.Name) and v.id == vp for _, _, v in facts.attr_stores(setter, fld)):
                     for st, attr, val in stores:
                         if attr == pname and isinstance(val, ast.Name) and val.id in init_params:
-                            feed = val.id
+                            feed, feed_st = val.id, st
+        if feed is not None and arg_passed(feed):
+            derived = _derived_from_other_param(init, feed, feed_st, init_params)
+            if derived:
+                dstmt, others = derived
+                o.refute(init, dstmt, f"{feed} <- {', '.join(sorted(others))} [constructor argument not stored as given]",
+                         f"Task.__init__ replaces its `{feed}` argument by a value derived from `{', '.join(sorted(others))}` before storing it "
+                         f"(`{src(dstmt)[:70]}`), and Task.clone builds every copy through `Task(..., {feed}=self.{feed}, ...)`: a source "
+                         f"state the constructor rewrites (reachable through the setters) is not reproduced on the copy - the copy's "
+                         f"{unmangle(fld)} differs from the source's")
+                continue
         if feed is None:
             o.undecided(init, init.node, unmangle(fld), f"private field {unmangle(fld)} of Task.__init__ is neither relation/owner state "
                                                         f"nor fed by a constructor parameter: cannot decide whether Task.clone must copy it")
@@ -1380,6 +1410,21 @@ def _rels_in_iter(e: ast.AST):
             out += r
         return out
     return None
+
+
+SEL_VARS = ('sel_predecessors', 'sel_successors')       # "has a predecessor / successor INSIDE the selection"
+
+
+def _rel_envs():
+    """all consistent truth assignments: the four relations of a source task non-empty or not, plus whether it has a selected
+    predecessor / successor (which implies that the relation is non-empty)"""
+    import itertools
+    keys = ALL_RELS + SEL_VARS
+    for bits in itertools.product((False, True), repeat=len(keys)):
+        env = dict(zip(keys, bits))
+        if (env['sel_predecessors'] and not env['predecessors']) or (env['sel_successors'] and not env['successors']):
+            continue
+        yield env
 
 
 def _is_sequence_test(test: ast.AST, p: str, pol: bool) -> bool:
@@ -1570,11 +1615,19 @@ class CloneAnalysis:
             stmt = cands[0]
             at = L.cfg.node_of(stmt)
             fors = L.cfg.enclosing_fors(at)
-            if len(fors) != 1 or not isinstance(fors[0].target, ast.Name) or L.cfg.enclosing_fors(L.cfg.node_of(fors[0])):
+            items_key = None
+            if len(fors) == 1 and isinstance(fors[0].target, ast.Tuple) and len(fors[0].target.elts) == 2 and \
+                    all(isinstance(x_, ast.Name) for x_ in fors[0].target.elts) and not L.cfg.enclosing_fors(L.cfg.node_of(fors[0])) and \
+                    L.lab(L.expand(fors[0].iter, L.cfg.node_of(fors[0])), L.cfg.node_of(fors[0]), {}).kind == 'SRCITEMS':
+                items_key = fors[0].target.elts[0].id      # for task_id, task in <selection by id>.items(): map[task_id] = task.clone()
+            elif len(fors) != 1 or not isinstance(fors[0].target, ast.Name) or L.cfg.enclosing_fors(L.cfg.node_of(fors[0])):
                 self.undecided(f, stmt, stmt, "`map[t.id] = t.clone()` is not inside exactly one loop over the selection")
                 return
             fo = fors[0]
-            v, key, cv = fo.target.id, L.expand(stmt.targets[0].slice, at), L.expand(stmt.value, at)
+            v = fo.target.elts[1].id if items_key else fo.target.id
+            key, cv = L.expand(stmt.targets[0].slice, at), L.expand(stmt.value, at)
+            if items_key and isinstance(key, ast.Name) and key.id == items_key:
+                key = ast.Attribute(value=ast.Name(id=v, ctx=ast.Load()), attr='id', ctx=ast.Load())   # the key of the item IS the task's id
             conds = [c for c in L.cfg.conditions(at)]
             filt = ' and '.join(facts.cond_texts(conds))
             hn = L.cfg.node_of(fo)
@@ -1582,6 +1635,8 @@ class CloneAnalysis:
                 self.undecided(f, fo, fo.iter, "the loop filling the clone map does not run on every path")
                 return
             il = L.lab(L.expand(fo.iter, hn), hn, {})
+            if items_key and il.kind == 'SRCITEMS':
+                il = Lab('SRCS', il.sel)
             it_txt = L.short(L.expand(fo.iter, hn))
             self.creation = stmt.targets[0]
         else:
@@ -1688,6 +1743,8 @@ class CloneAnalysis:
                     ci = [c for c in self.ctx.cg.calls_in(F) if c.node is call]
                     if F is self.f and ci and self._map_helper(F, L, call, ci[0], n):
                         continue
+                    if self._list_helper(F, L, call, cn, map_arg=n) is not None:
+                        continue            # read-only use of the map inside a list-building helper (judged by the relation rebuild)
                     if ci and not ci[0].targets and (ci[0].name or '') not in MUTATORS and \
                             not (isinstance(call.func, ast.Name) and call.func.id in self.prog.classes):
                         continue            # print / logging: no package code receives the map
@@ -2088,7 +2145,79 @@ class CloneAnalysis:
         r = var(e)
         if r is not None:
             return lambda env, r=r: env[r]
+        m = match("$k in $s", e) or match("$k not in $s", e)
+        if m and isinstance(m['s'], ast.Name) and match("$t.id", m['k']):
+            sl = L.lab(m['k'].value, cn, {})
+            if sl.kind == 'SRC' and sl.origin is not None and sl.origin == origin:
+                g = self._id_set_formula(L, m['s'].id)
+                if g is not None:
+                    pos = isinstance(e.ops[0], ast.In)
+                    return lambda env, g=g, pos=pos: g(env) == pos
         return None
+
+    def _id_set_formula(self, L: Labeller, sname: str):
+        """local set of ids built from the selection:
+               S = set();  for u in <all selected>: [if C(u):] S.add(u.id) / S.update(p.id for p in u.R)
+        -> membership of the id of a selected task t as a function of t's own relations: `C(t)` for the add, "t has a selected
+        successor / predecessor" for ids taken from u.predecessors / u.successors (mirror lists, C01); None when S is built otherwise"""
+        f = self.f
+        ds = L.flow.defs_of(sname)
+        if len(ds) != 1 or ds[0].kind != 'assign' or ds[0].value is None or not match("set()", ds[0].value):
+            return None
+        par = _parent_map(f.node)
+        parts = []
+        for n in walk_no_nested(f.node):
+            if not (isinstance(n, ast.Name) and n.id == sname):
+                continue
+            p = par.get(id(n))
+            if p is ds[0].stmt or isinstance(p, ast.Compare):
+                continue
+            call = par.get(id(p)) if isinstance(p, ast.Attribute) and p.value is n else None
+            if not (isinstance(call, ast.Call) and call.func is p and p.attr in ('add', 'update') and len(call.args) == 1):
+                return None
+            cn = L.node(call)
+            fors = L.cfg.enclosing_fors(cn) if cn is not None else []
+            if not fors or not isinstance(fors[0].target, ast.Name):
+                return None
+            u = fors[0].target.id
+            il = L.lab(L.expand(fors[0].iter, L.cfg.node_of(fors[0])), L.cfg.node_of(fors[0]), {})
+            if il.kind != 'SRCS' or full_selection(il) is not None or L.cfg.conditions(L.cfg.node_of(fors[0])):
+                return None
+            conds = []
+            for atom, pol in self._atoms(L, cn):
+                g = self._rel_prop(L, atom, u, cn)
+                if g is None:
+                    return None
+                conds.append((g, pol))
+            arg = call.args[0]
+            src_rel = None
+            if p.attr == 'add' and len(fors) == 1 and match(f"{u}.id", arg):
+                parts.append(lambda env, conds=conds: all(g(env) == pol for g, pol in conds))
+                continue
+            if p.attr == 'update' and len(fors) == 1 and isinstance(arg, (ast.GeneratorExp, ast.ListComp, ast.SetComp)) and \
+                    len(arg.generators) == 1 and not arg.generators[0].ifs and isinstance(arg.generators[0].target, ast.Name) and \
+                    match(f"{arg.generators[0].target.id}.id", arg.elt):
+                it = strip_seq_wrappers(arg.generators[0].iter)[0]
+                if isinstance(it, ast.Attribute) and isinstance(it.value, ast.Name) and it.value.id == u:
+                    src_rel = it.attr
+            elif p.attr == 'add' and len(fors) == 2 and isinstance(fors[1].target, ast.Name) and match(f"{fors[1].target.id}.id", arg):
+                it = strip_seq_wrappers(fors[1].iter)[0]
+                if isinstance(it, ast.Attribute) and isinstance(it.value, ast.Name) and it.value.id == u:
+                    src_rel = it.attr
+            if src_rel not in DEP_RELS:
+                return None
+            # the guards of this fill may only say that u.<src_rel> is non-empty (true anyway when an id is taken from it)
+            ok = True
+            for env in _rel_envs():
+                if env[src_rel] and not all(g(env) == pol for g, pol in conds):
+                    ok = False
+            if not ok:
+                return None
+            mirror = 'sel_successors' if src_rel == 'predecessors' else 'sel_predecessors'
+            parts.append(lambda env, mirror=mirror: env[mirror])
+        if not parts:
+            return None
+        return lambda env, parts=parts: any(g(env) for g in parts)
 
     def _implies_empty(self, L: Labeller, atoms, rel: str, origin, cn) -> bool:
         """the path condition is a formula over relation emptiness of the source task and holds only when its `rel` is empty"""
@@ -2098,9 +2227,7 @@ class CloneAnalysis:
             if f is None:
                 return False
             fs.append((f, pol))
-        import itertools
-        for bits in itertools.product((False, True), repeat=len(ALL_RELS)):
-            env = dict(zip(ALL_RELS, bits))
+        for env in _rel_envs():
             if env[rel] and all(f(env) == pol for f, pol in fs):
                 return False
         return True
@@ -2125,14 +2252,12 @@ class CloneAnalysis:
             return 'unknown', False, None
         # other assignments of the same relation on the same copy (if/else forms): the relation is assigned when any of them runs
         alt = [formula(a, n) for a, n in others]
-        import itertools
         witness, implies = None, True
-        for bits in itertools.product((False, True), repeat=len(ALL_RELS)):
-            env = dict(zip(ALL_RELS, bits))
+        for env in _rel_envs():
             run = all(f(env) == pol for f, pol in fs)
             if run and not env[rel]:
                 implies = False
-            if not run and env[rel] and (witness is None or sum(bits) < sum(witness.values())):
+            if not run and env[rel] and (witness is None or sum(env.values()) < sum(witness.values())):
                 if any(a is None for a in alt):
                     return 'unknown', False, None
                 if any(all(f(env) == pol for f, pol in a) for a in alt):
@@ -2193,6 +2318,9 @@ class CloneAnalysis:
                 self.refute(f, st, tgt, f"`{rel}` is rebuilt only for part of the copies: {bad}", 'relations')
                 continue
             rhs = L.expand_acc(st.value, cn)
+            lh = self._list_helper(f, L, rhs, cn)
+            if lh is not None:
+                rhs = lh                    # the list is built by a private helper of the class: judged as the comprehension it computes
             stmt_atoms = self._atoms(L, cn)
             if rel != 'parent' and (isinstance(rhs, ast.List) and not rhs.elts or match("list()", rhs)) and stmt_atoms and \
                     self._implies_empty(L, stmt_atoms, rel, rl.origin, cn):
@@ -2216,6 +2344,9 @@ class CloneAnalysis:
             elif skip == 'bad':
                 rest = [r for r in ALL_RELS if r != rel]
                 case = ', '.join(('' if witness[r] else 'no ') + r for r in rest)
+                if rel in DEP_RELS and not witness.get('sel_' + rel, True) and any(
+                        isinstance(x_, ast.Compare) and isinstance(x_.ops[0], (ast.In, ast.NotIn)) for a_, _ in stmt_atoms for x_ in [a_]):
+                    case += f" whose {rel} all lie outside the selection"
                 self.refute(f, st, st, f"`{src(tgt)}` is assigned only when `{' and '.join(self.text(a) if p else 'not (' + self.text(a) + ')' for a, p in stmt_atoms)[:120]}`: "
                                        f"for a source task with {'a parent' if rel == 'parent' else rel} and {case} the `{rel}` of its copy is never "
                                        f"assigned, it is left to the mirror updates of other assignments ("
@@ -2406,6 +2537,7 @@ class CloneAnalysis:
         # ---- provenance of the elements
         ident = self._identity_element(L, comp.elt, x, st, rel) if rel in DEP_RELS else None
         if ident == 'bad':
+            self._identity_seen.add(rel)
             return False
         lk = ident[0] if ident else self._map_lookup(L, comp.elt)
         if ident:
@@ -2456,9 +2588,22 @@ class CloneAnalysis:
             # outside tasks as themselves, selected members as their clones, unselected members dropped:
             # the filter must be equivalent to  <x outside>  or  x.id in <clone map>
             has_in = True
-            v = self._keep_formula(L, list(g.ifs) + pre_ifs, x, cn)
+            v = self._keep_formula(L, list(g.ifs) + pre_ifs, x, cn, rel)
+            own = ident[3]
             if isinstance(v, tuple):
                 rel_bad(v[0], f"`{rel}` of the copy: {v[1]}")
+            elif v(False, False) and own(False, False):
+                rel_bad('refute', f"`{rel}` of the copy: a link to a NON-selected member of the source is neither left out nor mapped - "
+                                  f"`{sh(comp.elt)[:70]}` hands the live source task itself to the copy (the element test treats "
+                                  f"'not selected' like 'outside'): the copy is wired into the source WBS; outside is `{x}.wbs != self` "
+                                  f"only, non-selected members must be filtered out (`if {x}.wbs != self or {x}.id in {self.mapvar}`)")
+            elif v(False, True) and own(False, True):
+                rel_bad('refute', f"`{rel}` of the copy: a selected member is handed to the copy as itself (`{sh(comp.elt)[:70]}`), not as "
+                                  f"its clone: the copy is wired into the source WBS")
+            elif (v(True, False) and not own(True, False)) or (v(True, True) and not own(True, True)):
+                rel_bad('refute', f"`{rel}` of the copy: a task OUTSIDE the source WBS is looked up by its id among the member clones "
+                                  f"(`{sh(comp.elt)[:70]}`): it is replaced by a member's clone with the same id or raises KeyError; "
+                                  f"outside link ends must be handed over as themselves")
             else:
                 txt = ' and '.join(sh(c) for c in list(g.ifs) + pre_ifs)[:90] or '<no filter>'
                 if not v(True, False) or not v(True, True):
@@ -2507,6 +2652,53 @@ class CloneAnalysis:
                 self._lookup_rels[rel] = st
         return rel_ok
 
+    def _list_helper(self, F: Func, L: Labeller, call: ast.AST, cn, map_arg=None):
+        """`self.<helper>(args)` where the helper only builds and returns a list with one accumulate loop
+               acc = []; for v in <param>: [if A:] acc.append(E1) [elif B: acc.append(E2)]; return acc
+        -> the comprehension it computes, in the caller's terms (parameters replaced by the expanded arguments); None otherwise.
+        With map_arg: additionally the helper must use the parameter bound to that argument read-only (subscript / get / in)."""
+        if not (isinstance(call, ast.Call) and isinstance(call.func, ast.Attribute) and isinstance(call.func.value, ast.Name)
+                and call.func.value.id == F.self_name and F.cls and not call.keywords
+                and not any(isinstance(a, ast.Starred) for a in call.args)):
+            return None
+        h = self.prog.find_method(F.cls, unmangle(call.func.attr))
+        if h is None or h.kind != 'method' or h is F or len(call.args) != len(h.params) - 1:
+            return None
+        body = [b for b in h.body if not (isinstance(b, ast.Expr) and isinstance(b.value, ast.Constant))]
+        if len(body) != 3 or not isinstance(body[2], ast.Return) or not isinstance(body[2].value, ast.Name) or \
+                not isinstance(body[1], ast.For) or any(isinstance(r, ast.Return) for r in ast.walk(body[1])):
+            return None
+        hl = Labeller(self.ctx, h)
+        rn = hl.cfg.node_of(body[2])
+        comp = hl._block_accumulator(body[2].value.id, rn) if rn is not None else None
+        if comp is None:
+            return None
+        ps = list(h.params)[1:]
+        if any(len(hl.flow.defs_of(p_)) != 1 for p_ in ps):
+            return None
+        if map_arg is not None:
+            pm = [p_ for p_, a_ in zip(ps, call.args) if a_ is map_arg]
+            if len(pm) != 1:
+                return None
+            par = _parent_map(h.node)
+            for n_ in ast.walk(h.node):
+                if isinstance(n_, ast.Name) and n_.id == pm[0]:
+                    p_ = par.get(id(n_))
+                    ok = (isinstance(p_, ast.Subscript) and p_.value is n_ and isinstance(p_.ctx, ast.Load)) or \
+                        (isinstance(p_, ast.Compare) and any(c_ is n_ for c_ in p_.comparators)) or \
+                        (isinstance(p_, ast.Attribute) and p_.attr == 'get' and isinstance(par.get(id(p_)), ast.Call))
+                    if not ok:
+                        return None
+        from sa.flow import subst
+        import copy as _copy
+        bind = {h.self_name: ast.Name(id=F.self_name, ctx=ast.Load())}
+        for p_, a_ in zip(ps, call.args):
+            bind[p_] = a_ if (isinstance(a_, ast.Name) and L.is_map(a_)) else L.expand(a_, cn)
+        bound = {n_.id for g_ in comp.generators for n_ in ast.walk(g_.target) if isinstance(n_, ast.Name)}
+        if bound & {n_.id for a_ in bind.values() for n_ in ast.walk(a_) if isinstance(n_, ast.Name)}:
+            return None                     # the loop variable of the helper would capture a name of the caller
+        return subst(_copy.deepcopy(comp), bind)
+
     def _outside_test(self, e: ast.AST, x: str):
         """e as a test on the linked task x -> 'EXT' (x is outside the source WBS) | 'INT' | 'NONE' (wbs None test) | None"""
         pol = True
@@ -2515,33 +2707,39 @@ class CloneAnalysis:
         return self._ext_test(e, pol, ast.Name(id=x, ctx=ast.Load()), self.f.self_name)
 
     def _identity_element(self, L: Labeller, elt: ast.AST, x: str, st, rel: str):
-        """element `x if <x outside> else map[x.id]` (either branch order) -> (lookup, 'identity', lookup expr) | None (not this
-        form) | 'bad' (this form, verdict recorded)"""
+        """element `x if <test> else map[x.id]` (either branch order), <test> a formula over `<x outside>` / `x.id in <map>`
+        -> (lookup, 'identity', lookup expr, own(outside, in_map) -> bool) | None (not this form) | 'bad' (verdict recorded)"""
         if not isinstance(elt, ast.IfExp):
             return None
-        t = self._outside_test(elt.test, x)
-        if t is None:
-            return None
         f = self.f
-        if t == 'NONE':
-            self.refute(f, st, elt.test, f"`{rel}` of the copy decides between 'the task itself' and 'its copy' by `{src(elt.test)}`, a "
-                                         f"test of `wbs` against None: a detached task and a task of another WBS are both outside the "
-                                         f"source; the only test allowed is `{x}.wbs != self`", 'receivers')
-            return 'bad'
-        own, other = (elt.body, elt.orelse) if t == 'EXT' else (elt.orelse, elt.body)
+        isx = lambda e: isinstance(e, ast.Name) and e.id == x
+        if isx(elt.body):
+            own_first, other = True, elt.orelse
+        elif isx(elt.orelse):
+            own_first, other = False, elt.body
+        else:
+            return None
         lk = self._map_lookup(L, other)
-        if isinstance(own, ast.Name) and own.id == x and lk is not None and match(f"{x}.id", lk[0]):
-            return lk, 'identity', other
-        lk2 = self._map_lookup(L, own)
-        if isinstance(other, ast.Name) and other.id == x and lk2 is not None:
-            self.refute(f, st, elt, f"`{rel}` of the copy takes `{src(own)}` for tasks OUTSIDE the source WBS and the task itself for "
+        if lk is None or not match(f"{x}.id", lk[0]):
+            return None
+        cn = L.cfg.node_of(st)
+        t = self._keep_formula(L, [elt.test], x, cn, rel)
+        if isinstance(t, tuple):
+            if t[0] == 'refute':
+                self.refute(f, st, elt.test, f"`{rel}` of the copy decides between 'the task itself' and 'its copy' by `{src(elt.test)[:70]}`: "
+                                             f"{t[1]}", 'receivers')
+            else:
+                self.undecided(f, st, elt, f"element `{src(elt)[:70]}` of the rebuilt `{rel}`: {t[1]}", 'receivers')
+            return 'bad'
+        own = t if own_first else (lambda o, i, t=t: not t(o, i))
+        if not own(True, False) and not own(True, True) and own(False, True):
+            self.refute(f, st, elt, f"`{rel}` of the copy takes `{src(other)}` for tasks OUTSIDE the source WBS and the task itself for "
                                     f"members (`{src(elt)[:70]}`): the branches are swapped - members are shared with the copy, outside "
                                     f"tasks are looked up by id among the member clones", 'receivers')
             return 'bad'
-        self.undecided(f, st, elt, f"element `{src(elt)[:70]}` of the rebuilt `{rel}` is not `x if x.wbs != self else map[x.id]`", 'receivers')
-        return 'bad'
+        return lk, 'identity', other, own
 
-    def _keep_formula(self, L: Labeller, ifs, x: str, cn):
+    def _keep_formula(self, L: Labeller, ifs, x: str, cn, rel: str = None):
         """conjunction of the comprehension filters as a function (outside: bool, in_map: bool) -> kept, built from not/and/or
         over `<x outside>` tests and `x.id in <clone map>`; or ('refute'|'undecided', message) for an atom of another kind"""
         def parse(e):
@@ -2568,6 +2766,14 @@ class CloneAnalysis:
             if m and L.is_map(m['m']) and match(f"{x}.id", m['k']):
                 pos = isinstance(e.ops[0], ast.In)
                 return lambda o, i, pos=pos: i == pos
+            if m and match(f"id({x})", m['k']) and isinstance(m['m'], ast.Name):
+                # registry of outside tasks keyed by object identity:  D[id(y)] = y  under  y.wbs != self
+                r_ = self._identity_registry(L, m['m'].id, rel)
+                if isinstance(r_, tuple):
+                    return r_
+                if r_:
+                    pos = isinstance(e.ops[0], ast.In)
+                    return lambda o, i, pos=pos: o == pos
             if m and match(f"{x}.id", m['k']) and not self.registrations:
                 ml = L.lab(m['m'], cn, {})
                 if ml.kind in ('SRCMAP', 'SRCKEYS') and full_selection(ml) is None:
@@ -2583,6 +2789,61 @@ class CloneAnalysis:
             if isinstance(g_, tuple):
                 return g_
         return lambda o, i: all(g_(o, i) for g_ in gs)
+
+    def _identity_registry(self, L: Labeller, d: str, rel: str):
+        """local dict d filled only by `d[id(y)] = y` under `y.wbs != self` for y in the relations of the selected tasks:
+        True when `id(x) in d` == `x is outside` for every link end x of relation `rel` of every selected task;
+        ('refute', msg) when the scan leaves part of the selection out; None when d is not such a registry"""
+        f = self.f
+        ds = L.flow.defs_of(d)
+        if len(ds) != 1 or ds[0].kind != 'assign' or ds[0].value is None or not (
+                isinstance(ds[0].value, ast.Dict) and not ds[0].value.keys or match("dict()", ds[0].value)):
+            return None
+        fills = self._dict_fills(f, L, d, {id(ds[0].stmt)})
+        if not fills:
+            return None
+        cov = {}
+        why = None
+        for _, _, stt, k, v in fills:
+            cn = L.node(stt)
+            if not (isinstance(v, ast.Name) and match(f"id({v.id})", k)) or cn is None:
+                return None
+            ext = False
+            for atom, pol in self._atoms(L, cn):
+                t = self._ext_test(atom, pol, v, f.self_name)
+                if t == 'EXT':
+                    ext = True
+                elif v.id in {n.id for n in ast.walk(atom) if isinstance(n, ast.Name)}:
+                    return None
+            if not ext:
+                return None
+            fors = L.cfg.enclosing_fors(cn)
+            rels = None
+            for fo in fors:
+                if isinstance(fo.target, ast.Name) and fo.target.id == v.id:
+                    rels = _rels_in_iter(L.expand(fo.iter, L.cfg.node_of(fo)))
+            if not rels:
+                return None
+            for t_expr, r in rels:
+                tl = L.lab(t_expr, cn, {})
+                if tl.kind != 'SRC':
+                    return None
+                bad = full_selection(tl)
+                if bad is None:
+                    cov[r] = True
+                elif r not in cov:
+                    where = src(t_expr)
+                    for fo in fors:
+                        if isinstance(fo.target, ast.Name) and isinstance(t_expr, ast.Name) and fo.target.id == t_expr.id:
+                            where = f"{t_expr.id} in {src(fo.iter)[:50]}"
+                    why = (where, bad)
+        if rel is None or cov.get(rel):
+            return True if rel is not None else None
+        if why is not None:
+            return ('refute', f"`{d}` registers the outside tasks found while scanning `{why[0]}` only ({why[1]}): an outside "
+                              f"{rel[:-1] if rel else 'link end'} of the other selected tasks is not in it, so that link is dropped (or looked "
+                              f"up by id among the member clones) instead of being kept")
+        return None
 
     # ---------------------------------------------------------------- (g) outside link ends are handed over by identity (F39)
     def _outside_identity(self):
@@ -2742,6 +3003,34 @@ class CloneAnalysis:
         if not self.merged:
             self._uses(g, G, g.node, None, False)          # merged: already enumerated by the 'externals' clause
 
+    def _own_public_state(self, cls: str, clause: str, loop_txt: str):
+        """the attribute copy loop hands every PUBLIC instance attribute to the copy by reference.  Code of the class itself must
+        therefore keep no mutable / task-holding state in a public attribute (caches, indexes): the copy would share it"""
+        props = self._property_names(cls)
+        n_fn, bad = 0, False
+        for F in list(self.prog.funcs.values()):
+            if F.cls != cls or F.kind not in ('method', 'getter', 'setter') or not F.self_name:
+                continue
+            n_fn += 1
+            for st, attr, val in _self_stores(F):
+                if attr.startswith('_') or attr in props:
+                    continue
+                ty = None
+                try:
+                    ty = self.ctx.typer.expr_type(val, F)
+                except Exception:
+                    pass
+                holds_tasks = bool(ty) and 'Task' in str(ty)
+                if _is_mutable_init(val) or holds_tasks:
+                    bad = True
+                    self.refute(F, st, f"self.{attr} [own mutable state in a public attribute]",
+                                f"`{src(st)[:60]}` in {cls}.{F.name}: {cls} keeps " + ("task objects" if holds_tasks else "a mutable container") +
+                                f" of its own in the PUBLIC attribute `{attr}`; {loop_txt} hands the very same object to the copy, so the "
+                                f"copy answers from (and writes into) the source's state - e.g. an id index returns the SOURCE's tasks; "
+                                f"internal state belongs in a private attribute (skipped by the loop)", clause)
+        if n_fn and not bad:
+            self.site(self.g, self.g.node, f"{cls} code keeps no mutable / task-holding state of its own in a public attribute", clause)
+
     def _only_early_bypass(self, cl) -> bool:
         """the copy loop sits at the top level of __clone (directly or through the helper call) and is skipped by nothing but the
         early `return WBS()` exits"""
@@ -2801,6 +3090,7 @@ class CloneAnalysis:
                     if F is g:
                         fine_loops.append(cl)
             ok_in[F.qual] = good
+        self._own_public_state('WBS', 'wbs-attrs', "the loop in __clone that carries the public attributes of the source WBS over")
         gcfg = cfg_of(g)
         for ifs, r in self.early:
             if isinstance(r.value, ast.Name) and any(
